@@ -126,6 +126,12 @@ def dump(fn, in_shape, in_dtype):
                     name = "complex_to_real"
                 elif not np.issubdtype(src, np.complexfloating) and np.issubdtype(dst, np.complexfloating):
                     name = "real_to_complex"
+            if name == "gather":
+                # an out-of-range read in FILL mode returns fill_value (NaN when None, e.g. mode="drop"): affine, not
+                # linear, unless the fill is zero.  Decided after the walk (are the indices in range?).
+                fv = e.params.get("fill_value")
+                if "FILL" in str(e.params.get("mode")) and not (fv is not None and fv == 0):
+                    name = "gather_nonzero_fill"
             args = [rd(a) for a in e.invars]
             spec = [("c", a.val) if isinstance(a, core.Literal) else ("v", env[a]) for a in e.invars]
             for k, ov in enumerate(e.outvars):
@@ -140,6 +146,24 @@ def dump(fn, in_shape, in_dtype):
     cidx = [new_var(_const_name(c), [], ("const", c)) for c in cj.consts]
     outs = walk(cj.jaxpr, cidx, [0])
     assert len(outs) == 1
+    # a FILL-mode gather with a non-zero fill value is a plain gather when no index is out of range (the rule for
+    # "gather" requires constant indices, so the indices met on this input are the indices met on every input)
+    if any(p == "gather_nonzero_fill" for p, _ in eqs):
+        try:
+            vals = evaluate(impls, v0)
+        except Exception:   # noqa: BLE001
+            vals = None
+        for i, (p, a) in enumerate(eqs):
+            if p != "gather_nonzero_fill" or vals is None:
+                continue
+            _, prim, params, spec, k = impls[i]
+            ops = [vals[s[1]] if s[0] == "v" else s[1] for s in spec]
+            try:
+                res = prim.bind(jnp.ones_like(jnp.asarray(ops[0])), *ops[1:], **params)
+                if bool(jnp.all(res == 1)):
+                    eqs[i] = ("gather", a)
+            except Exception:   # noqa: BLE001
+                pass
     dump.last_impls = impls
     return eqs, outs[0], unsupported
 
@@ -188,8 +212,8 @@ def validate_table(impls, kinds, x, y, a, b, tol):
             d = np.abs(ps - (a * px + b * py)).max(initial=0)
         else:           # conjugate-linear
             d = np.abs(ps - (np.conj(a) * px + np.conj(b) * py)).max(initial=0)
-        scale = max(1.0, float(np.abs(ps).max(initial=0)))
-        if d > tol * scale:
+        scale = max(1.0, float(np.nan_to_num(np.abs(ps)).max(initial=0)))
+        if not (d <= tol * scale):       # NaN-safe
             bad.append((i, k, float(d)))
     return bad
 
